@@ -3,6 +3,7 @@ package an
 import (
 	"go/constant"
 	"go/token"
+	"go/types"
 	"strings"
 
 	"golang.org/x/tools/go/ssa"
@@ -236,6 +237,10 @@ func membershipTest(b *ssa.BasicBlock) (coll, elem ssa.Value, notMember *ssa.Bas
 		if len(x.Call.Args) == 2 && strings.HasPrefix(calleeName(x), "slices.Contains[") {
 			coll, elem = x.Call.Args[0], x.Call.Args[1]
 		}
+		// a method of a set type that looks its argument up in the receiver
+		if callee := x.Call.StaticCallee(); callee != nil && len(x.Call.Args) == 2 && isSetLookupFn(callee) {
+			coll, elem = x.Call.Args[0], x.Call.Args[1]
+		}
 	case *ssa.Lookup:
 		if !x.CommaOk {
 			coll, elem = x.X, x.Index
@@ -335,4 +340,125 @@ func flowsFrom(v ssa.Value, src ssa.Value, d int) bool {
 		}
 	}
 	return false
+}
+
+// isSetLookupFn: fn(m, k) does nothing but report whether k is a key of the map m.
+func isSetLookupFn(fn *ssa.Function) bool {
+	if fn == nil || len(fn.Blocks) != 1 || len(fn.Params) != 2 {
+		return false
+	}
+	if _, isMap := fn.Params[0].Type().Underlying().(*types.Map); !isMap {
+		return false
+	}
+	found := false
+	for _, ins := range fn.Blocks[0].Instrs {
+		switch x := ins.(type) {
+		case *ssa.Lookup:
+			if x.X != ssa.Value(fn.Params[0]) || x.Index != ssa.Value(fn.Params[1]) {
+				return false
+			}
+			found = true
+		case *ssa.Extract, *ssa.Return, *ssa.DebugRef:
+		default:
+			return false
+		}
+	}
+	return found
+}
+
+// wrapsMapUpdate: fn(m, k) does nothing but enter k into the map m.
+func wrapsMapUpdate(fn *ssa.Function) bool {
+	if fn == nil || len(fn.Blocks) != 1 || len(fn.Params) != 2 {
+		return false
+	}
+	if _, isMap := fn.Params[0].Type().Underlying().(*types.Map); !isMap {
+		return false
+	}
+	found := false
+	for _, ins := range fn.Blocks[0].Instrs {
+		switch x := ins.(type) {
+		case *ssa.MapUpdate:
+			if x.Map != ssa.Value(fn.Params[0]) || x.Key != ssa.Value(fn.Params[1]) {
+				return false
+			}
+			found = true
+		case *ssa.Return, *ssa.DebugRef:
+		default:
+			return false
+		}
+	}
+	return found
+}
+
+// sharedSetGuardedRecursion: fn(x, visited) with visited a map shared by all activations:
+// returns at once when visited holds x, otherwise enters x before any recursive call, and
+// hands the same map to every recursive call. Each activation past the test adds a new key,
+// and keys come from a finite graph: the recursion ends.
+func sharedSetGuardedRecursion(fn *ssa.Function) bool {
+	if len(fn.Blocks) == 0 {
+		return false
+	}
+	entry := fn.Blocks[0]
+	coll, elem, absent := membershipTest(entry)
+	cp, ok1 := coll.(*ssa.Parameter)
+	kp, ok2 := elem.(*ssa.Parameter)
+	if !ok1 || !ok2 || absent == nil {
+		return false
+	}
+	if _, isMap := cp.Type().Underlying().(*types.Map); !isMap {
+		return false
+	}
+	present := entry.Succs[0]
+	if present == absent {
+		present = entry.Succs[1]
+	}
+	if _, isRet := present.Instrs[len(present.Instrs)-1].(*ssa.Return); !isRet {
+		return false
+	}
+	// the record on the absent side
+	var record ssa.Instruction
+	for _, b := range fn.Blocks {
+		if !(b == absent || absent.Dominates(b)) {
+			continue
+		}
+		for _, ins := range b.Instrs {
+			switch x := ins.(type) {
+			case *ssa.MapUpdate:
+				if x.Map == ssa.Value(cp) && x.Key == ssa.Value(kp) && record == nil {
+					record = x
+				}
+			case *ssa.Call:
+				if callee := x.Call.StaticCallee(); callee != nil && wrapsMapUpdate(callee) && len(x.Call.Args) == 2 && x.Call.Args[0] == ssa.Value(cp) && x.Call.Args[1] == ssa.Value(kp) && record == nil {
+					record = x
+				}
+			}
+		}
+	}
+	if record == nil {
+		return false
+	}
+	collIdx := -1
+	for i, p := range fn.Params {
+		if p == cp {
+			collIdx = i
+		}
+	}
+	n := 0
+	for _, b := range fn.Blocks {
+		for _, ins := range b.Instrs {
+			c, ok := ins.(*ssa.Call)
+			if !ok || c.Call.StaticCallee() != fn {
+				continue
+			}
+			n++
+			if collIdx >= len(c.Call.Args) || c.Call.Args[collIdx] != ssa.Value(cp) {
+				return false
+			}
+			rb := record.Block()
+			if !(rb == b && instrIndex(record) < instrIndex(c)) && !(rb != b && rb.Dominates(b)) {
+				return false
+			}
+		}
+	}
+	return n > 0
 }
